@@ -1,5 +1,101 @@
-"""Traced kernels shared by C01 and C02 (filled in below)."""
+"""Traced kernels shared by C01 and C02: the real slice_faces_plane on ONE symbolic face, once per corner pattern.
+
+Concrete face table [[0, 1, 2]], symbolic vertices / plane.  The traced outputs are the returned vertex coordinates
+(expressions) plus the returned faces and face mapping (concrete, compared fail-closed with a table computed here
+independently of the code, and proved to be the model's result under the traced path condition)."""
+import itertools
+
+import numpy as np
+
+from common import Kernel
+
+REF = [0.5, -1.0, 0.25]
+NRM = [0.5, 1.0, -2.0]
+T1 = [4.0, -2.0, 0.0]   # NRM . T1 = 0
+T2 = [0.0, 8.0, 4.0]    # NRM . T2 = 0
+AB = [(1.0, 0.5), (-0.5, 1.0), (0.25, -0.75)]
+
+
+def scenario(pattern, unused_equal=False):
+    """three concrete corners realising the pattern (code convention: -1 front, 0 on, 1 behind)."""
+    vs = []
+    for i, s in enumerate(pattern):
+        a, b = AB[i]
+        k = {-1: 0.5 + 0.25 * i, 0: 0.0, 1: -0.75 - 0.25 * i}[s]
+        if unused_equal and s != 0:
+            k = 0.5 if s == -1 else -0.75  # equal offsets: the denominator of the edge between them is exactly 0
+        vs.append([REF[j] + a * T1[j] + b * T2[j] + k * NRM[j] for j in range(3)])
+    return vs
+
+
+def expected_tables(pattern, selected):
+    """(number of returned vertices, faces, mapping) for the single face [0, 1, 2] — from the property's rules and
+    the documented output layout, not from the code."""
+    front = [i for i in range(3) if pattern[i] == -1]
+    behind = [i for i in range(3) if pattern[i] == 1]
+    if not selected or not behind:
+        return 3, [[0, 1, 2]], [0]
+    if not front:
+        return 0, [], []
+    if len(front) == 2:
+        k = behind[0]
+        b, c = (k + 1) % 3, (k + 2) % 3
+        raw = [[b, c, 3], [b, 3, 4]]
+        used = sorted({b, c, 3, 4})
+        rank = {v: i for i, v in enumerate(used)}
+        return 4, [[rank[i] for i in f] for f in raw], [0, 0]
+    return 3, [[0, 1, 2]], [0]
+
+
+def _lemma(pattern, selected, with_mask):
+    nv, faces, mapping = expected_tables(pattern, selected)
+    F = "[%s]" % "; ".join("mkface %d %d %d" % tuple(f) for f in faces)
+    M = "[%s]" % "; ".join("%d%%nat" % i for i in mapping)
+    fi = "None" if not with_mask else ("(Some [0%nat])" if selected else "(Some [])")
+    return ("""Lemma {T}_ok : forall {vars} : R, {T}_path ROps {vars} ->
+  exists vsout,
+    slice_faces_plane ROps (merge_tol ROps) (patch_eps ROps) [V3 v0 v1 v2; V3 v3 v4 v5; V3 v6 v7 v8] [mkface 0 1 2]
+      (V3 n0 n1 n2) (V3 r0 r1 r2) %s = Ok (MkOut vsout %s %s) /\\
+    {T} ROps {vars} = flat_map vlist vsout.
+Proof.
+  intros {vars} Hpath. unfold {T}_path in Hpath. unfold nfrac in Hpath. rops. path_facts Hpath.
+  unfold {T}. one_face_tie.
+Qed.""" % (fi, F, M))
 
 
 def kernels():
-    return []
+    from polliwog.plane._trimesh_intersections import slice_faces_plane
+
+    ks = []
+
+    def add(name, pattern, selected, with_mask, unused_equal=False):
+        nv, faces, mapping = expected_tables(pattern, selected)
+        mask = None if not with_mask else np.array([selected])
+
+        def call(v, n, r, mask=mask):
+            fi = None if mask is None else mask.nonzero()[0]
+            return slice_faces_plane(vertices=v, faces=np.array([[0, 1, 2]]), plane_normal=n, plane_origin=r,
+                                     face_index=fi, return_face_mapping=True)
+
+        ks.append(Kernel(
+            name, {"v": scenario(pattern, unused_equal), "n": NRM, "r": REF}, call, _lemma(pattern, selected, with_mask),
+            imports=[("PW.model", "M_slicing"), ("PW.proofs", "P_slicing_tie")],
+            perturb=1e-12 if (0 in pattern or unused_equal) else 1e-3,
+            expect_structure={"tuple": [
+                {"shape": [nv, 3], "data": ["e"] * (3 * nv)},
+                {"shape": [len(faces), 3], "dtype": "int64", "data": [i for f in faces for i in f]},
+                {"shape": [len(mapping)], "dtype": "int64", "data": list(mapping)}]}))
+
+    nm = {-1: "f", 0: "o", 1: "b"}
+    for pat in itertools.product([-1, 0, 1], repeat=3):
+        tag = "".join(nm[s] for s in pat)
+        add("slice_" + tag, pat, True, pat[0] == 0)          # no mask, or an explicit all-true mask
+    # the `denom == 0` patch on the unused edge, taken the other way (both corners of that edge at the same offset)
+    add("slice_bff_patch", (1, -1, -1), True, False, unused_equal=True)
+    add("slice_fbb_patch", (-1, 1, 1), True, False, unused_equal=True)
+    add("slice_bfb_patch", (1, -1, 1), True, False, unused_equal=True)
+    # unselected faces are handed back whatever their pattern
+    add("slice_unsel_bfo", (1, -1, 0), False, True)
+    add("slice_unsel_bbb", (1, 1, 1), False, True)
+    add("slice_unsel_ffb", (-1, -1, 1), False, True)
+    return ks
